@@ -174,6 +174,18 @@ def _scenarios():
                {"push_data": {"O1": "DATA", "O2": "DATA"}}))
     sc.append(("out-static-then-timed", {}, {"O1": (True, True, True, "none", {"info": [OK]}), "O2": (True, True, False, "same", {"info": [OK]})}, [],
                {"push_data": {"O1": "DATA", "O2": "DATA"}}))
+    # a component that offers infos / data in EVERY call (the pattern of CsvReader and of the documentation) while the exchange
+    # with the targets stays outstanding for a while
+    sc.append(("out-push-info-every-call", {}, {"O": (False, True, False, "same", {"info": [FAIL, FAIL, FAIL, OK]})}, [],
+               {"push_infos@*": {"O": "GIVEN"}, "push_data@*": {"O": "DATA"}}))
+    sc.append(("in-given-every-call", {"A": (False, {"exchange_info": [FAIL, FAIL, OK]})}, {}, [], {"exchange_infos@*": {"A": "GIVEN"}}))
+    # a producer that starts later than the composition, with a timed output and a static one whose exchanged info carries a
+    # time all the same (Output.get_info fills unset fields - also the time - from the consumer): static slots take no part in
+    # the comparison of starting times
+    sc.append(("out-static-with-consumer-time-then-later-start", {}, {"O1": (True, True, True, "same", {"info": [OK]}), "O2": (True, True, False, "later", {"info": [OK]})}, [],
+               {"push_data": {"O1": "DATA", "O2": "DATA"}}))
+    sc.append(("out-later-start-then-static-with-consumer-time", {}, {"O1": (True, True, False, "later", {"info": [OK]}), "O2": (True, True, True, "same", {"info": [OK]})}, [],
+               {"push_data": {"O1": "DATA", "O2": "DATA"}}))
     # never completing peer
     sc.append(("stuck", {"A": (True, {"exchange_info": [FAIL]})}, {}, ["A"], {}))
     # data for the output arrives only in a later call
@@ -202,7 +214,7 @@ def r11_r12_connect(repo, sink):
             kw = {}
             for key, val in args.items():
                 base, _, at = key.partition("@")
-                if (at and int(at) == k) or (not at and k == 1):
+                if at == "*" or (at and int(at) == k) or (not at and k == 1):
                     kw[base] = {n: (_mk_info("given", start) if v == "GIVEN" else Sym("payload", n)) for n, v in val.items()}
             before = _state(me, repo)
             it.log, it.attempts = [], []
@@ -231,7 +243,7 @@ def r11_r12_connect(repo, sink):
                 why = f"call {k}: nothing new was exchanged but status is {st}"
             # liveness: an output whose info exchange is complete and whose data was handed over is published in this very call
             if why is None:
-                given = {n2 for key, val in args.items() if key.partition("@")[0] == "push_data" and int(key.partition("@")[2] or 1) <= k for n2 in val}
+                given = {n2 for key, val in args.items() if key.partition("@")[0] == "push_data" and (key.partition("@")[2] == "*" or int(key.partition("@")[2] or 1) <= k) for n2 in val}
                 for n2 in given:
                     if after["out_infos"].get(n2) is not None and after["infos_pushed"].get(n2) and not after["data_pushed"].get(n2):
                         why = (f"call {k}: output {n2} has completed its info exchange and was given its initial data, but the data was not published "
@@ -245,6 +257,9 @@ def r11_r12_connect(repo, sink):
                         why = f"call {k}: input {lbl} pulled twice"
                     if op == "push_data" and before["data_pushed"].get(lbl):
                         why = f"call {k}: output {lbl} received its initial data twice"
+                    if op == "push_info" and before["infos_pushed"].get(lbl):
+                        why = (f"call {k}: output {lbl} is given its info again although it was pushed before: a component that offers its infos in "
+                               "every call (the documented pattern) overwrites the info its targets already negotiated, and reports progress forever")
                 for (lbl, op, res, *_r) in it.attempts:
                     if res == FAIL:
                         d = {"exchange_info": "in_infos", "pull_data": "pulled", "info": "out_infos"}[op]
@@ -586,6 +601,32 @@ def r11r_rules(repo, sink):
     except Raised as r:
         why = f"raises {r.name} ({r.exc!r})"
     sink.check(why is None, "R11", "rules:in-from-output", f, ok="input request derived from the output's exchanged info, exchanged once", bad=why or "")
+    # 3b) an input and an output of one component with the SAME name (a pass-through filter "Data" -> "Data"), each derived from the other side
+    for direction in ("in-from-output", "out-from-input"):
+        why = None
+        try:
+            if direction == "in-from-output":
+                it, me, inputs, outputs = build(in_rules={"Data": [_rule(repo, "FromOutput", "Data")]}, ins={"Data": False}, outs={"Data": True})
+            else:
+                it, me, inputs, outputs = build(out_rules={"Data": [_rule(repo, "FromInput", "Data")]}, ins={"Data": True}, outs={"Data": False})
+            it.log = []
+            st = None
+            for _k in range(4):
+                st = it.run(f, [start], {}, self_obj=me)
+            if direction == "in-from-output":
+                ex = [a for (_l, op, a) in it.log if op == "exchange_info"]
+                if len(ex) != 1 or not ex[0] or not isinstance(ex[0][0], Obj) or ex[0][0].fields["meta"].get("units") != Sym("u", "Data"):
+                    why = f"the input's request must be derived from the output of the same name; exchanged as {ex!r}"
+            else:
+                pushed = [a[0] for (_l, op, a) in it.log if op == "push_info"]
+                if len(pushed) != 1 or not isinstance(pushed[0], Obj) or pushed[0].fields.get("grid") != Sym("grid", "Data"):
+                    why = f"the output's info must be derived from the input of the same name; pushed {pushed!r}"
+            if why is None and not (isinstance(st, Sym) and st.args[1] == "CONNECTED"):
+                why = f"the helper ends in {st!r} instead of CONNECTED (the rule is looked up on the wrong side and is never satisfied)"
+        except Raised as r:
+            why = f"raises {r.name} ({r.exc!r})"
+        sink.check(why is None, "R11", f"rules:same-name:{direction}", f,
+                   ok="FromInput / FromOutput address the input / output side even when both sides use one slot name", bad=why or "")
     # 4) an input whose info comes from value rules (always derivable) and whose source answers late: the exchange is attempted in
     # EVERY call while it is outstanding - with and without caching (a helper that tries only every second call reports no progress
     # although its peer is ready, and the composition ends in a false circular-coupling error)
